@@ -226,7 +226,9 @@ macro_rules! aops {
             #[allow(unused_mut)]
             fn snapshot(w: &mut VW, path: u8) -> Vec<Row> {
                 let mut out: Vec<Row> = Vec::new();
-                match path % 9 {
+                match path % 11 {
+                    9 => { ecs_iter_destroy!(w, |e: &Entity<$A>, $($c: &$T),*| { out.push((tok(*e), vec![$(rd($c)),*])); EcsStep::Continue }); out.reverse(); }
+                    10 => { ecs_iter_destroy!(w, |e: &Entity<$A>, $($c: &$T),*| { out.push((tok(*e), vec![$(rd($c)),*])); }); out.reverse(); }
                     0 => { ecs_iter!(w, |e: &Entity<$A>, $($c: &$T),*| { out.push((tok(*e), vec![$(rd($c)),*])); }); }
                     1 => { ecs_iter_borrow!(w, |e: &Entity<$A>, $($c: &$T),*| { out.push((tok(*e), vec![$(rd($c)),*])); }); }
                     2 => { for (e, $($c),*) in w.$f.iter() { out.push((tok(*e), vec![$(rd($c)),*])); } }
